@@ -697,6 +697,28 @@ def canon(o, depth=0):
     return "<" + type(o).__name__ + ">"
 
 
+def changed_by_writer(before, after, path=""):
+    """first place where a value the container held before writing differs afterwards; slots that were empty
+    (None / [] / {}) may be filled in by the writer (it stores defaults and empty arrays there)"""
+    if before is None or before == [] or before == {}:
+        return None
+    if isinstance(before, dict) and isinstance(after, dict):
+        for k in before:
+            if k not in after:
+                return path + "/" + k, before[k], "<absent>"
+            d = changed_by_writer(before[k], after[k], path + "/" + k)
+            if d:
+                return d
+        return None
+    if isinstance(before, list) and isinstance(after, list) and len(before) == len(after):
+        for i, (x, y) in enumerate(zip(before, after)):
+            d = changed_by_writer(x, y, f"{path}[{i}]")
+            if d:
+                return d
+        return None
+    return None if before == after else (path, before, after)
+
+
 def first_diff(a, b, path=""):
     if type(a) != type(b) and not (isinstance(a, (int, float)) and isinstance(b, (int, float))):
         return path, a, b
@@ -1058,8 +1080,15 @@ def gen_isotxs(rng, asc, idx, gam=False):
         nmd["nuclideId"], nmd["libName"], nmd["isoIdent"] = nm, rand_text(rng, 8), rand_text(rng, 8)
         for k in ("amass", "efiss", "ecapt", "temp", "sigPot", "adens"):
             nmd[k] = gf(rng)
+        # every optional vector of the 5D record is governed by its own flag only: fisFlag and chiFlag are drawn
+        # independently (a non-fissile nuclide may carry its own chi); the one coupling the format has is that a
+        # fissile nuclide without its own chi needs the file-wide chi
         fis = rng.choice([0, 1])
-        chiFlag = 0 if not fis else (rng.choice([0, 1]) if fileChi == 1 else 1)
+        chiFlag = rng.choice([0, 1])
+        if idx % 4 == 2:
+            fis, chiFlag = 0, 1
+        if fis and chiFlag == 0 and fileChi != 1:
+            chiFlag = 1
         nmd["classif"], nmd["chiFlag"], nmd["fisFlag"] = gi(rng, asc), chiFlag, fis
         for k in ("nalph", "np", "n2n", "nd", "nt"):
             nmd[k] = rng.choice([0, 1])
@@ -1320,6 +1349,7 @@ def roundtrip_case(ctx, fmt, data, asc, workdir, tag, case, jobs, origin="genera
     key0 = f"{fmt.name.lower()}-{m}"
     ctx.crumb(dict(case, step="write/read/re-write through the real stream"))
     _SPARSE_VIOLATIONS.clear()
+    A0 = canon(data)
     with common.quiet():
         try:
             with recording(mode_w) as trw:
@@ -1328,6 +1358,10 @@ def roundtrip_case(ctx, fmt, data, asc, workdir, tag, case, jobs, origin="genera
             ctx.fail(f"{key0}-write-raises", "a well-formed container can be written", case, observed=repr(e)[:300])
             return None
     A = canon(data)
+    mut = changed_by_writer(A0, A)
+    if mut:
+        ctx.fail(f"{key0}-writer-mutates-container", "writing leaves every value the container held unchanged", case,
+                 observed={"where": mut[0], "after": str(mut[2])[:160]}, expected=str(mut[1])[:160])
     b1 = open(p1, "rb").read()
     ctx.traces += 1
     ctx.count(f"{fmt.name} {m} {origin} files")
